@@ -8,12 +8,17 @@ package main
 
 import (
 	"bufio"
+	"bytes"
+	"crypto/sha1"
+	"encoding/json"
 	"fmt"
 	"go/ast"
 	"go/constant"
+	"go/printer"
 	"go/token"
 	"go/types"
 	"os"
+	"path/filepath"
 	"reflect"
 	"sort"
 	"strconv"
@@ -74,6 +79,10 @@ func main() {
 	pkg := pkgs[0]
 	info := pkg.TypesInfo
 	var out []entry
+	// fingerprints of the function bodies (second argument: where to write them): file -> function -> hash of the
+	// declaration printed without comments.  bin/check compares them with the pinned list to notice that the source a
+	// model was transcribed from has changed (which widens the search; it is not a verdict).
+	funcs := map[string]map[string]string{}
 	// 1. constants
 	scope := pkg.Types.Scope()
 	for _, n := range scope.Names() {
@@ -147,6 +156,18 @@ func main() {
 					if id, ok := t.(*ast.Ident); ok {
 						name = id.Name + "_" + name
 					}
+				}
+				{
+					doc := fd.Doc
+					fd.Doc = nil
+					var pb bytes.Buffer
+					printer.Fprint(&pb, pkg.Fset, fd)
+					fd.Doc = doc
+					base := filepath.Base(fname)
+					if funcs[base] == nil {
+						funcs[base] = map[string]string{}
+					}
+					funcs[base][name] = fmt.Sprintf("%x", sha1.Sum(pb.Bytes()))[:16]
 				}
 				seen := map[string]bool{}
 				ast.Inspect(fd.Body, func(n ast.Node) bool {
@@ -259,6 +280,13 @@ func main() {
 					}
 				}
 			}
+		}
+	}
+	if len(os.Args) > 2 {
+		b, _ := json.MarshalIndent(funcs, "", " ")
+		if err := os.WriteFile(os.Args[2], append(b, '\n'), 0o644); err != nil {
+			fmt.Fprintln(os.Stderr, "genconsts:", err)
+			os.Exit(1)
 		}
 	}
 	sort.Slice(out, func(i, j int) bool { return out[i].name < out[j].name })
